@@ -65,6 +65,7 @@ type params struct {
 	Depth   int  // sequential dials by the main thread
 	Threads int  // 0: sequential histories; 2: concurrent dialling threads, then `Depth` sequential dials
 	Yield   bool // shuffle yields between swaps
+	Fail    bool // the first lookup of the name fails transiently (SERVFAIL), later ones would succeed
 	TTL     int  // >0: refresh scenario instead: DNSCaching(1s) with a ticker that may fire TTL times; `Depth` steps, each a dial or a change of the host's DNS records
 	CT      int  // >0: connect-to scenario instead: CT replacement addresses, `Threads` threads dialling the mapped address `Depth` times each
 }
@@ -75,6 +76,9 @@ func (p params) name() string {
 	}
 	if p.CT > 0 {
 		return fmt.Sprintf("connect-to,replacements=%d,threads=%d,dials-each=%d", p.CT, p.Threads, p.Depth)
+	}
+	if p.Fail {
+		return fmt.Sprintf("set=%s,depth=%d,first-lookup-fails", p.Set, p.Depth)
 	}
 	return fmt.Sprintf("set=%s,depth=%d,threads=%d,yield=%v", p.Set, p.Depth, p.Threads, p.Yield)
 }
@@ -287,10 +291,23 @@ func (w *world) main() {
 	dialOnce := func(i int) []string {
 		before := len(w.dials[i])
 		_, err := tr.DialContext(context.WithValue(context.Background(), key{}, i), "tcp", name)
-		if err != nil && w.bad == "" {
+		if err != nil && w.bad == "" && !p.Fail {
 			w.bad = fmt.Sprintf("dial failed: %v", err)
 		}
 		return append([]string(nil), w.dials[i][before:]...)
+	}
+	if p.Fail {
+		// the resolver fails while the first dial looks the name up and works again afterwards: dials may fail
+		// (the failure is cached like an answer), but whatever reaches the base dial function is a resolved address
+		dnsmem.SetFailing(p.Set+".test.", true)
+		for k := 0; k < p.Depth; k++ {
+			got := dialOnce(0)
+			dnsmem.SetFailing(p.Set+".test.", false)
+			if len(got) > 0 {
+				w.checkDial(fmt.Sprintf("dial %d (the first lookup of the name failed)", k+1), got)
+			}
+		}
+		return
 	}
 	if p.Threads > 0 {
 		done := make(chan int)
@@ -329,6 +346,9 @@ func (w *world) end(s *vsched.Sched, r *vsched.Result) (string, string) {
 	if w.p.TTL > 0 {
 		return "", fmt.Sprint(w.hist)
 	}
+	if w.p.Fail {
+		return "", fmt.Sprint(w.dials)
+	}
 	if w.p.CT > 0 {
 		return "", fmt.Sprint(w.dials)
 	}
@@ -353,7 +373,7 @@ func scenario(p params) vsched.Scenario {
 		},
 		After: func() []string {
 			var bad []string
-			if p.CT > 0 || p.TTL > 0 {
+			if p.CT > 0 || p.TTL > 0 || p.Fail {
 				return nil
 			}
 			want := sets[p.Set]
@@ -424,6 +444,8 @@ func plans() []plan {
 	// connect-to under concurrent dials
 	ps = append(ps, plan{params{CT: 2, Threads: 2, Depth: 1}, -1}, plan{params{CT: 2, Threads: 2, Depth: 2}, -1},
 		plan{params{CT: 3, Threads: 3, Depth: 1}, -1}, plan{params{CT: 3, Threads: 2, Depth: 3}, ev.Pick(3, -1)})
+	// the first lookup of a name fails transiently
+	ps = append(ps, plan{params{Set: "v4x2", Depth: 3, Fail: true}, -1}, plan{params{Set: "v4x2v6x1", Depth: 2, Fail: true}, -1})
 	// refresh goroutine: records change while the cache is refreshed on a ticker
 	ps = append(ps, plan{params{TTL: 3, Depth: 3, Set: "single"}, -1}, plan{params{TTL: 3, Depth: 4, Set: "single"}, -1}, plan{params{TTL: 3, Depth: 3, Set: "dual"}, ev.Pick(1, -1)})
 	if th {
